@@ -358,8 +358,8 @@ fn start_op(handles: &std::rc::Rc<std::cell::RefCell<HashMap<String, H>>>, op: &
         },
         "caller_call" => match hs.get(&a1) {
             Some(H::Caller(c)) => {
-                // Caller::call borrows the caller: keep a downgraded+upgraded copy alive inside the future instead
-                let c2 = c.downgrade().upgrade().expect("caller alive");
+                // Caller::call borrows the caller: keep a clone alive inside the future instead
+                let c2 = c.clone();
                 Started::Fut(Box::pin(async move { fmt_resp(&c2.call(M(a2)).await) }))
             }
             _ => panic!(),
